@@ -10,7 +10,9 @@ MANIFEST = {
     "technique": "Lean 4 proof (spec parser ∘ encoder = id, by induction on sub-authorities) + correspondence",
 }
 THEOREMS = ["DpapiNg.C08.targetSd_layout", "DpapiNg.C08.parseAcl_target", "DpapiNg.C08.sid_bytes_injective", "DpapiNg.C08.targetSd_injective",
-            "DpapiNg.C08.parseSidStr_wf", "DpapiNg.C08.parseSidStr_rejects"]
+            "DpapiNg.C08.parseSidStr_wf", "DpapiNg.C08.parseSidStr_rejects",
+            # model = interpretation of the byte layouts regenerated from ace_to_bytes / acl_to_bytes (Gen.LayoutAce_eq, Gen.LayoutAcl_eq)
+            "DpapiNg.SecDesc.aceBytes_eq_layout", "DpapiNg.SecDesc.aclBytes_eq_layout"]
 RULE = ("SIDs S-R-A-s1..sn for all n in 0..17 × boundary values {0,1,2^31,2^32-1,2^32,2^48-1,2^48,2^64}, random SIDs, near-miss strings "
         "(trailing newline, non-ASCII digits, signs, whitespace, empty parts, lower-case s, leading zeros); ops sid / ace / targetsd on the real "
         "functions vs the model, plus the independent parsers on the real bytes; distinct by op line; non-trivial = accepted SID with n ≥ 1")
